@@ -36,6 +36,11 @@ def run(pid, tier):
         scen.append(sc)
     obs = pc.execute(rep, scen, 'default', 'C17')
     pc.validate(rep, 'C17', scen, obs, 'C17-default', kindfn=kind, fields=pc.FIELDS['C06'] | {'errs', 'out.block-header'})
+    # a transport whose write callback reports a status (0) instead of a byte count: what is a complete block, and with it the
+    # separator in front of the next item, must not depend on that
+    sub0 = scen[::3]
+    obs0 = pc.execute(rep, sub0, 'default', 'C17write0', env={'DRV_WRITE_ZERO': '1'})
+    pc.validate(rep, 'C17', sub0, obs0, 'C17-write-returns-0', kindfn=kind, fields=pc.FIELDS['C06'] | {'errs', 'out.block-header'})
     # the build without device-dependent error information has its own branches in the result functions
     small = [s for s in scen if sum(len(c) for c in s['chunks']) < 64 and not any(o[0] == 'r' and o[1] == 'blk' and len(o[2]) > 300 for sc_ in s['scripts'] for o in sc_[3])]
     obs2 = pc.execute(rep, small, 'noinfo', 'C17n')
